@@ -14,7 +14,7 @@ import (
 // re-establishes v != nil, and that dereferences v (or invokes a method on a nil interface, calls a nil
 // func, writes a nil map), is a crash the code itself believes possible.
 func init() {
-	register(&Rule{ID: "C01.NIL", Min: 150, Doc: "no use of a value that must be non-nil on a path where the code itself established it is nil", Run: runC01Nil})
+	register(&Rule{ID: "C01.NIL", Min: 450, Doc: "no use of a value that must be non-nil on a path where the code itself established it is nil; a field of the workflow AST that the code tests for nil anywhere is used only behind a test of the same field path", Run: runC01Nil})
 }
 
 // nilTest describes `v == nil` / `v != nil` as the condition of an If.
@@ -128,6 +128,33 @@ func binExprAt(fn *ssa.Function, pos token.Pos) string {
 	return res
 }
 
+// c01NilWalkValue: the walk of C01.NIL for the one SSA value v (no reloads of its field path).
+func c01NilWalkValue(start *ssa.BasicBlock, v ssa.Value, seen map[*ssa.BasicBlock]bool, fault *string, faultPos *token.Pos) {
+	work := []*ssa.BasicBlock{start}
+	for len(work) > 0 && *fault == "" {
+		blk := work[len(work)-1]
+		work = work[:len(work)-1]
+		if seen[blk] {
+			continue
+		}
+		seen[blk] = true
+		for _, in := range blk.Instrs {
+			if why := derefOf(in, v); why != "" {
+				*fault = why
+				*faultPos = in.Pos()
+				return
+			}
+		}
+		if len(blk.Instrs) > 0 {
+			if v2, ns2, ok2 := nilTest(blk.Instrs[len(blk.Instrs)-1]); ok2 && v2 == v {
+				work = append(work, blk.Succs[ns2])
+				continue
+			}
+		}
+		work = append(work, blk.Succs...)
+	}
+}
+
 func runC01Nil(c *Ctx) {
 	for _, fn := range c.P.Funcs {
 		occ := map[string]int{}
@@ -148,7 +175,11 @@ func runC01Nil(c *Ctx) {
 			occ[txt]++
 			construct := fmt.Sprintf("%s|%s#%d", FuncName(fn), txt, occ[txt])
 
-			// Walk from the nil edge. At another test of the same value follow only the nil outcome.
+			// Walk from the nil edge. At another test of the same value follow only the nil outcome. A value read from a
+			// field (x.f, x.f.g) is the same value at every other load of that field path from the same x, until something
+			// may have stored into one of the fields of the path: `x.f != nil || x.f.g != nil` uses x.f where it is nil.
+			same := samePathLoads(fn, v)
+			_, chain := fieldPathOf(v)
 			start := b.Succs[nilSucc]
 			seen := map[*ssa.BasicBlock]bool{}
 			work := []*ssa.BasicBlock{start}
@@ -161,18 +192,33 @@ func runC01Nil(c *Ctx) {
 					continue
 				}
 				seen[blk] = true
+				killed := false
 				for _, in := range blk.Instrs {
-					if why := derefOf(in, v); why != "" {
-						fault = why
-						faultPos = in.Pos()
+					for w := range same {
+						if why := derefOf(in, w); why != "" && (w == v || !killed) {
+							fault = why
+							faultPos = in.Pos()
+						}
+					}
+					if fault != "" {
 						break
+					}
+					if len(same) > 1 && !killed && c.P.mayStoreFields(in, chain) {
+						killed = true
 					}
 				}
 				if fault != "" {
 					break
 				}
+				if killed {
+					// behind a possible store only the tested SSA value itself is still known to be nil
+					for _, s := range blk.Succs {
+						c01NilWalkValue(s, v, map[*ssa.BasicBlock]bool{}, &fault, &faultPos)
+					}
+					continue
+				}
 				if len(blk.Instrs) > 0 {
-					if v2, ns2, ok2 := nilTest(blk.Instrs[len(blk.Instrs)-1]); ok2 && v2 == v {
+					if v2, ns2, ok2 := nilTest(blk.Instrs[len(blk.Instrs)-1]); ok2 && same[v2] {
 						work = append(work, blk.Succs[ns2])
 						continue
 					}
@@ -186,4 +232,5 @@ func runC01Nil(c *Ctx) {
 			}
 		}
 	}
+	c01NilFields(c)
 }
